@@ -158,7 +158,58 @@ def t_flood(ctx):
                 ctx.check('C14.accepted_once', tr.count('A', lab, name) == 1, ev=lab, handler=name, n=tr.count('A', lab, name))
 
 
-TEMPLATES = {'k.dispatch': t_dispatch_kernel, 's1.flood': t_flood}
+def t_restart(ctx):
+    """dispatch() after the bus's run loop ended — through stop(), or because the run-loop task was cancelled from outside while the
+    event loop keeps running — still either raises or accepts AND processes the event."""
+    how = ctx.cfg['how']          # 'stop' | 'cancel'
+    t_c = ctx.real('t_c', 0, Exact('1/2'))
+    d = Exact(ctx.cfg.get('d', '1/5'))
+    # a dispatch in the very loop tick of an external cancellation (before it is delivered) is outside the claim: gap > 0
+    gap = ctx.real('gap', Exact('1/100') if how == 'cancel' else 0, Exact('3/10'))
+    ctx.new_loop(horizon=8)
+    bus = ctx.bus('A')
+
+    async def hP(h, ev):
+        await h.sleep(d)
+        return 'p'
+    ctx.on(bus, P, 'hP', hP)
+    ctx.on(bus, C, 'hC', ret='c')
+    st = {}
+
+    async def main():
+        m = ctx.main
+        m.dispatch(bus, ctx.ev(P, 'P1', event_timeout=30.0))
+        m.dispatch(bus, ctx.ev(C, 'C0', event_timeout=30.0))
+        await asyncio.sleep(t_c)
+        if how == 'stop':
+            await bus.stop()
+        else:
+            # e.g. an application-level "cancel everything except me" sweep
+            for t in list(ctx.loop._all_tasks):
+                if t is not asyncio.current_task() and not t.done():
+                    t.cancel()
+        await asyncio.sleep(gap)
+        try:
+            late = m.dispatch(bus, ctx.ev(C, 'Clate', event_timeout=30.0))
+            st['late'] = 'accepted'
+        except Exception as ex:  # noqa
+            st['late'] = 'raise:' + type(ex).__name__
+        await asyncio.sleep(2)
+        st['done'] = True
+
+    ctx.run(main())
+    tr = Trace(ctx.records)
+    if st.get('late') == 'accepted':
+        ctx.witness('late dispatch accepted')
+        sl = ctx.snap(ctx.events['Clate'])
+        ctx.check('C14.accepted_processed', tr.count('A', 'Clate', 'hC') == 1 and sl['status'] == 'completed' and sl['signal'] is True,
+                  n=tr.count('A', 'Clate', 'hC'), got=(sl['status'], sl['signal']), why='dispatch() accepted the event but the bus never processed it')
+    else:
+        ctx.witness('late dispatch rejected')
+    ctx.check('C14.main_finished', bool(st.get('done')))
+
+
+TEMPLATES = {'k.dispatch': t_dispatch_kernel, 's1.flood': t_flood, 's1.restart': t_restart}
 
 
 def jobs(tier):
@@ -170,6 +221,8 @@ def jobs(tier):
     out.append(Job('C14', 'k.dispatch', t_dispatch_kernel, dict(p=60, inside=True, limits=False, loop=True)))
     out.append(Job('C14', 'k.dispatch', t_dispatch_kernel, dict(p=3, inside=True, limits=True, loop=False)))
     out.append(Job('C14', 'k.dispatch', t_dispatch_kernel, dict(p=3, inside=False, limits=True, loop=False)))
+    for dd in ('1/5', '1/20'):
+        out.append(Job('C14', 's1.restart', t_restart, dict(how='cancel', d=dd), witnesses=('late dispatch accepted',)))
     if tier == 'quick':
         out.append(Job('C14', 's1.flood', t_flood, dict(n_range=[47, 54]), witnesses=('rejection inside a handler',)))
         out.append(Job('C14', 's1.flood', t_flood, dict(n_range=[0, 3])))
